@@ -80,6 +80,14 @@ impl Prop for C15Prop {
         let mut mix = StreamMix::draw(rng, 300);
         mix.max_segs = rng.range(1, 6);
         l.segs = gen::gen_segs(rng, tier, &mix);
+        if rng.chance(1, 300) {
+            // a transmission of 2^16 bytes and more: the static buffer must agree with the growable one
+            let n = *rng.pick(&[65_535usize, 65_536, 65_537, 65_544]);
+            let p = gen::gen_payload_len(rng, n);
+            let at = rng.below(l.segs.len() + 1);
+            l.segs.insert(at, crate::scn::Seg::Frame { payload: crate::hexbytes::Hx(p), enc: crate::scn::Enc::Ref, faults: vec![] });
+            l.sub = "six-receivers-64k".into();
+        }
         l.extra_polls = rng.below(3);
         Scenario::Link(l)
     }
@@ -135,6 +143,9 @@ impl Prop for C15Prop {
             Some((_, n)) => {
                 if n.leftover.unwrap_or(0) > 0 {
                     st.bump("probe", "leftover>0");
+                }
+                if stream.len() > 65_536 {
+                    st.bump("probe", "stream>2^16");
                 }
                 if n.results.len() >= 3 {
                     st.bump("probe", "log>=3");
